@@ -117,10 +117,10 @@ CHECKS['C06'] = {
     'clause_prefixes': ['c06'],
     'technique': 'contract-based deductive verification (Verus): frame postconditions on ExecutionEngine::execute_select / execute_aggregate / execute_aggregate_update extracted from /repo',
     'claim': 'Proof that for a line whose extracted row has no non-NULL column (which includes every NOT NULL failure, see C01) the three per-line entry points return an empty output and leave the whole engine (DISTINCT memory, aggregation state, row counter) unchanged, for all tables, statements and lines. Consequently inserting or deleting such lines cannot change any later result of that engine.',
-    'note': 'Trusted: Row::any_result is a stand-in in the Verus unit (Iterator::any has no specification); the real one-liner is checked by a bounded Kani harness where it terminates. TableDefinition::extract is abstract here (unit extract proves the NOT NULL cut). Loading of the joined file goes through the same execute_select, so it is covered by the same contract.',
+    'note': 'Trusted: Iterator::any behind the vx_any stand-in (true after the predicate held for some element, false after it failed for every element); Row::any_result itself is under contract. TableDefinition::extract is abstract here (unit extract proves the NOT NULL cut). Loading of the joined file goes through the same execute_select, so it is covered by the same contract.',
     'level': 'proof',
     'explanation': 'admitted(row) := exists a non-NULL column; the contracts say !admitted ==> output empty and *final(self) == *old(self).',
-    'trusted': COMMON_TRUST + ['Row::any_result stand-in (r == exists non-NULL column)'],
+    'trusted': COMMON_TRUST + ['Iterator::any (vx_any stand-in)'],
     'unproved': ['join branches of execute_select / execute_aggregate (closures capturing &mut: not supported by Verus)'],
 }
 CHECKS['C11'] = {
